@@ -1,7 +1,7 @@
 """E2 core: the loaded program model (functions, trees, CFGs, class hierarchy) and the
 generic analyses the rules are written in (edge-sensitive reachability / domination,
 reaching definitions, condition normalisation)."""
-import re, collections
+import re, collections, os
 from .build import AnalysisBroken
 
 TRANSPARENT = {'ParenExpr', 'ImplicitCastExpr', 'ExprWithCleanups', 'MaterializeTemporaryExpr',
@@ -91,10 +91,16 @@ class Fn(object):
 
     def walk(self, root=None):
         stack = [self.body if root is None else root]
+        # flattened view (vlib/inline.py): the statements of an inlined helper hang below its call node; a walk that starts at a
+        # statement (or at the whole body) sees them, a walk over an expression does not
+        deep = root is None or self.nodes[root]['k'].endswith('Stmt')
         while stack:
             i = stack.pop()
             yield i
-            stack.extend(reversed(self.nodes[i]['ch']))
+            n = self.nodes[i]
+            if deep and 'inl' in n:
+                stack.extend(reversed(n['inl']))
+            stack.extend(reversed(n['ch']))
 
     def all_nodes(self):
         """every node including ctor initialisers"""
@@ -111,6 +117,8 @@ class Fn(object):
         if P is None or n['k'] not in ('CallExpr', 'CXXMemberCallExpr') or not n.get('callee') or n.get('virt'):
             return None
         g = P.fns.get(n['callee'])
+        if g is not None and g.types is not self.types:
+            g = P.fn_in_unit(g.id, self.unit)
         if g is None or g is self or g.types is not self.types or g.body is None or g.body < 0 or g.entry is None:
             return None
         if n['k'] == 'CXXMemberCallExpr':
@@ -325,6 +333,10 @@ class Fn(object):
         if k == 'CXXThisExpr':
             return ('this',)
         if k == 'DeclRefExpr':
+            # a local reference bound once to a member path (`buffers_type &buffers = d->buffers;`) stands for that path
+            al = self._ref_alias(n['ref'])
+            if al is not None:
+                return al
             return (n['ref'],)
         if k == 'MemberExpr':
             if not n['ch']:
@@ -341,6 +353,29 @@ class Fn(object):
             o = self.obj(i)
             if o is not None:
                 return self.access_path(o)
+        return None
+
+    def _ref_alias(self, ref):
+        if not ref.startswith('v:'):
+            return None
+        if not hasattr(self, '_aliases'):
+            self._aliases = {}
+            for j in range(len(self.nodes)):
+                m = self.nodes[j]
+                if m['k'] == 'DeclStmt':
+                    for d in m.get('decls', []):
+                        if d.get('isref') and d.get('init') is not None:
+                            self._aliases[d['ref']] = d['init']
+        if ref not in self._aliases or self._aliases[ref] is None:
+            return None
+        init = self._aliases[ref]
+        self._aliases[ref] = None          # recursion guard
+        try:
+            ap = self.access_path(init)
+        finally:
+            self._aliases[ref] = init
+        if ap and len(ap) >= 2 and ap[-1].startswith('f:'):
+            return ap
         return None
 
     def subtree_refs(self, i):
@@ -556,13 +591,20 @@ class Fn(object):
         n = self.nodes[i]
         res = []
         ops = [(_NEG_OP[n['op']], True, False)]
-        if n['k'] == 'BinaryOperator' and len(n['ch']) == 2:
+        binop = n['k'] == 'BinaryOperator' and len(n['ch']) == 2
+        opcall = n['k'] == 'CXXOperatorCallExpr' and len(n['ch']) == 3          # [callee, a, b]: a user-defined comparison
+        if binop or opcall:
             ops += [(_SWAP_OP[n['op']], False, True), (_NEG_OP[_SWAP_OP[n['op']]], True, True)]
         for (op, flip, swap) in ops:
             c = {k_: v_ for k_, v_ in n.items() if k_ not in ('cv', 'cn', 'callee', 'ov', 'rec')}
             c['op'] = op
             c['syn'] = 1
-            c['ch'] = list(reversed(n['ch'])) if swap else list(n['ch'])
+            if not swap:
+                c['ch'] = list(n['ch'])
+            elif binop:
+                c['ch'] = list(reversed(n['ch']))
+            else:
+                c['ch'] = [n['ch'][0], n['ch'][2], n['ch'][1]]
             c['i'] = len(self.nodes)
             self.nodes.append(c)
             res.append((c['i'], flip))
@@ -775,6 +817,13 @@ class Fn(object):
 
     def _arrival_tag(self, b, s, lab, tag):
         """tag carried into block s: (L, 'T'|'F'|'R') while the value of logical operator L is pending"""
+        rj = getattr(self, '_retjoin', None)
+        if rj:
+            if s in rj:
+                # s branches on the value of an inlined helper call; b is one of the helper's return blocks
+                return (('ret', s), rj[s][b]) if b in rj[s] else None
+            if tag is not None and tag[0] == ('ret', b):
+                tag = None
         self._confluence(s)
         L = self._join.get(s)
         if L is not None:
@@ -801,6 +850,8 @@ class Fn(object):
         out = []
         L = self._confluence(b)
         forced = tag[1] if (tag is not None and L is not None and tag[0] == L) else None
+        if tag is not None and tag[0] == ('ret', b):
+            forced = tag[1]
         for (s, lab) in self.succ_edges(b):
             if forced == 'T' and lab is False:
                 continue
@@ -986,6 +1037,14 @@ class Program(object):
                     self.fns[f['id']] = Fn(f, u)
                     self.fns[f['id']].P = self
         self._const_ret = {}
+        self.flattened = {}
+        if os.environ.get('VERIF_INLINE'):
+            from . import inline
+            done = {}
+            for f in list(self.fns.values()):
+                names = inline.flatten(f, (), done)
+                if names:
+                    self.flattened[f.id] = names
         self.by_name = collections.defaultdict(list)
         self.by_bname = collections.defaultdict(list)
         for f in self.fns.values():
@@ -1003,6 +1062,22 @@ class Program(object):
         if all_:
             return l
         return l[0] if l else None
+
+    def fn_in_unit(self, fid, unit):
+        """the definition of function `fid` as seen by translation unit `unit` (header functions are repeated per unit and their
+        type tables are per unit: node-level cooperation between two functions needs both from the same unit)"""
+        if not hasattr(self, '_fiu'):
+            self._fiu = {}
+        key = (fid, id(unit))
+        if key not in self._fiu:
+            self._fiu[key] = None
+            for d in unit['functions']:
+                if d['id'] == fid:
+                    g = self.fns[fid] if (fid in self.fns and self.fns[fid].unit is unit) else Fn(d, unit)
+                    g.P = self
+                    self._fiu[key] = g
+                    break
+        return self._fiu[key]
 
     def const_return(self, fid):
         """the constant a (non-virtual, defined) function returns on every path, e.g. a `...; return false;` helper"""
